@@ -32,18 +32,22 @@ type tnode struct {
 	In     string  `json:"in,omitempty"`  // N | S | M
 	Out    string  `json:"out,omitempty"` // N | S | M
 	Pass   bool    `json:"pass,omitempty"`
+	Kind   string  `json:"kind,omitempty"` // "" invokable | "stream0": streamable, sends NO chunk | "collect": collectable
 	InKey  string  `json:"in_key,omitempty"`
 	OutKey string  `json:"out_key,omitempty"`
 	Sub    *tgraph `json:"sub,omitempty"`
 }
 
 type tgraph struct {
-	Name  string      `json:"name"`
-	In    string      `json:"in"`
-	Out   string      `json:"out"`
-	Dag   bool        `json:"dag,omitempty"`
-	Nodes []tnode     `json:"nodes"`
-	Edges [][2]string `json:"edges"`
+	Name string `json:"name"`
+	In   string `json:"in"`
+	Out  string `json:"out"`
+	Dag  bool   `json:"dag,omitempty"`
+	// StreamOnly: the graph is only meaningful in the stream paradigm (Invoke concatenates a streaming node's
+	// output, and a stream without chunks does not concatenate): reference run and every call use Stream
+	StreamOnly bool        `json:"stream_only,omitempty"`
+	Nodes      []tnode     `json:"nodes"`
+	Edges      [][2]string `json:"edges"`
 }
 
 // TypedTrace is one typed history.
@@ -88,6 +92,16 @@ func typedGraphs() []*tgraph {
 				Edges: [][2]string{{"start", "sub"}, {"sub", "c"}, {"c", "end"}}},
 		)
 	}
+	for _, dag := range []bool{false, true} {
+		sfx := "/pregel"
+		if dag {
+			sfx = "/dag"
+		}
+		// a pending input that is a stream WITHOUT chunks (a streaming filter that lets nothing through, read by a
+		// collecting node): it must survive the interrupt like any other value
+		gs = append(gs, &tgraph{Name: "empty-stream" + sfx, In: "S", Out: "S", Dag: dag, StreamOnly: true, Nodes: []tnode{{Key: "filter", In: "S", Out: "S", Kind: "stream0"}, {Key: "count", In: "S", Out: "S", Kind: "collect"}, {Key: "tail", In: "S", Out: "S"}},
+			Edges: [][2]string{{"start", "filter"}, {"filter", "count"}, {"count", "tail"}, {"tail", "end"}}})
+	}
 	// START's value parked in a channel at the interrupt: b waits for START and for a (all-predecessor mode only)
 	gs = append(gs, &tgraph{Name: "start-fanin/dag", In: "M", Out: "S", Dag: true, Nodes: []tnode{{Key: "a", In: "M", Out: "S", OutKey: "a"}, {Key: "b", In: "M", Out: "S"}},
 		Edges: [][2]string{{"start", "a"}, {"start", "b"}, {"a", "b"}, {"b", "end"}}})
@@ -117,7 +131,7 @@ func renderTyped(v any) string {
 type typedLog struct {
 	mu     sync.Mutex
 	call   int
-	execs  []string       // "key(in)"
+	execs  []string         // "key(in)"
 	byCall map[int][]string // node keys started per call, in order
 }
 
@@ -130,6 +144,35 @@ func (l *typedLog) add(key string, in any) {
 
 func lambdaFor(n tnode, path string, log *typedLog) *compose.Lambda {
 	key := path + n.Key
+	switch n.Kind {
+	case "stream0":
+		// a streaming filter that lets nothing through: a stream that ends without a single chunk is a legal value
+		return compose.StreamableLambda(func(ctx context.Context, in string) (*schema.StreamReader[string], error) {
+			log.add(key, in)
+			sr, sw := schema.Pipe[string](1)
+			sw.Close()
+			return sr, nil
+		})
+	case "collect":
+		return compose.CollectableLambda(func(ctx context.Context, in *schema.StreamReader[string]) (string, error) {
+			defer in.Close()
+			got := ""
+			n := 0
+			for {
+				c, err := in.Recv()
+				if err == io.EOF {
+					break
+				}
+				if err != nil {
+					return "", err
+				}
+				got += c
+				n++
+			}
+			log.add(key, fmt.Sprintf("%d chunks:%s", n, got))
+			return key + "(" + got + ")", nil
+		})
+	}
 	switch n.In + ">" + n.Out {
 	case "N>S":
 		return compose.InvokableLambda(func(ctx context.Context, in int) (string, error) {
@@ -347,7 +390,11 @@ func RunTyped(t *TypedTrace) (*typedResult, error) {
 		return nil, fmt.Errorf("reference graph does not compile: %w", err)
 	}
 	in := typedInput(tg.In)
-	if res.Want, err = ref.call(context.Background(), "invoke", in); err != nil {
+	refMode := "invoke"
+	if tg.StreamOnly {
+		refMode = "stream"
+	}
+	if res.Want, err = ref.call(context.Background(), refMode, in); err != nil {
 		return nil, fmt.Errorf("uninterrupted reference run fails: %w", err)
 	}
 	res.WantExec = append([]string{}, refLog.execs...)
@@ -495,6 +542,9 @@ func typedTraces(emit func(t *TypedTrace)) {
 					continue
 				}
 				for _, pat := range patterns {
+					if g.StreamOnly && !(len(pat) == 1 && pat[0] == "stream") {
+						continue
+					}
 					ints := map[string]IntCfg{}
 					if len(oc.Before)+len(oc.After) > 0 {
 						ints[""] = oc
